@@ -13,17 +13,48 @@
   3. What the application was handed (start line, header fields, body as DATA lexemes, error / close, hang, exception)
      is validated by TLC against spec/http/HttpFramingTrace.tla, which recomputes the Abs result from the lexemes.
   4. Mutated streams (seeded): only termination / no exception escaping are judged.
+  5. Bounded: which octets count against which cap is part of the model (HttpAbs.tla Wt / OverCap, HttpFraming.tla
+     OverAt / BufOver).  The generator emits messages with one-octet payloads whose image is dominated by a long
+     header field / chunk extension / last-chunk extension / trailer field of 3 or 5 quarters of the cap, and pairs
+     that fit one by one but not together; Abs: within every cap -> handed over exactly, larger than a cap -> error /
+     close and never handed over.  They run on the server (direct + through the socket) and on a real HttpClient
+     (maxResponseBytes 64 KiB) against the scripted peer.
 """
 import os, json, concurrent.futures as cf
 import vf
 
 SPECDIR = os.path.join(vf.SPEC, "http")
 DEVS = ["Dev_ChunkPosWraps", "Dev_ChunkedBodyNotDecoded", "Dev_TrailerLeavesCrlf", "Dev_LenientContentLength",
-        "Dev_BadChunkSizeWaitsForever", "Dev_LenientChunkSize"]
+        "Dev_BadChunkSizeWaitsForever", "Dev_LenientChunkSize", "Dev_CapSkipsFraming", "Dev_NoHeadCap"]
+DEV_SIDE = {"Dev_CapSkipsFraming": "resp"}     # the side whose Impl model the deviation lives in (default: req)
 INVS = ["Exact", "Complete", "Terminates", "Bounded"]
 VARS = ["c", "arr", "ncuts", "base", "pc", "hend", "cpos", "cbody", "hdone", "mode", "fn", "out", "closed"]
 SRV_FLOOD = 1024 * 1024 + 64 * 1024       # > SessionInfo::MAX_BUFFER_SIZE
 CLI_FLOOD = 64 * 1024 + 32 * 1024         # > the response cap the e2e client is configured with (64 KiB)
+# the caps the big lexemes of HttpAbs.tla are measured against (a weight w = w quarters of the cap)
+CLI_CAP = 64 * 1024                       # drv_httpframe.cpp runClientE2e: maxResponseBytes = jsonConfig.maxPayloadSize
+SRV_HEAD_CAP = 64 * 1024                  # SessionInfo::MAX_HEADER_SIZE
+SRV_BUF_CAP = 1024 * 1024                 # SessionInfo::MAX_BUFFER_SIZE
+BIG_BASE = 10                             # HttpAbs.tla BigBase
+
+
+def big_w(kind, arg):
+    """weight of a lexeme in quarters of its cap (HttpAbs.tla Wt), 0 = an ordinary lexeme"""
+    if kind in ("HDR", "TRL", "LAST") and arg >= BIG_BASE:
+        return arg - BIG_BASE
+    if kind == "CSZ" and arg // 100 >= BIG_BASE:
+        return arg // 100 - BIG_BASE
+    return 0
+
+
+def big_len(kind, arg, side):
+    """octets of the image of a big lexeme"""
+    cap = CLI_CAP if side == "resp" else (SRV_HEAD_CAP if kind == "HDR" else SRV_BUF_CAP)
+    return big_w(kind, arg) * (cap // 4)
+
+
+def is_big(case):
+    return any(big_w(k, a) for k, a in case["lex"])
 
 # ------------------------------------------------------------------------------------------------ rendering table
 STATUS_TEXT = {100: "Continue", 103: "Early Hints", 200: "OK", 204: "No Content", 304: "Not Modified", 404: "Not Found"}
@@ -35,8 +66,12 @@ def clx_value(v, n):
     return {1: "%dabc" % n, 2: "+%d" % n, 3: "%d, %d" % (n, n + 1), 4: "18446744073709551616", 5: "", 6: "-%d" % n}[v]
 
 
-def header_of(kind, arg):
-    """(name, value as the application sees it, wire image of the value) of a header / trailer lexeme"""
+def header_of(kind, arg, side="resp"):
+    """(name, value as the application sees it, wire image of the value) of a header / trailer lexeme; the value of a
+    big lexeme is ("z", n): n octets 'Z'"""
+    if big_w(kind, arg):
+        n = big_len(kind, arg, side) - len("X-Big: \r\n")
+        return ("x-big" if kind == "HDR" else "t-big"), ("z", n), ("z", n)
     if kind == "CL":
         return "content-length", str(arg), str(arg)
     if kind == "CLL":
@@ -58,10 +93,17 @@ def header_of(kind, arg):
 
 
 WIRE_NAME = {"content-length": "Content-Length", "transfer-encoding": "Transfer-Encoding", "connection": "Connection",
-             "x-a": "X-A", "x-b": "X-B", "t": "T", "u": "U"}
+             "x-a": "X-A", "x-b": "X-B", "t": "T", "u": "U", "x-big": "X-Big", "t-big": "T-Big"}
 
 
 def image(kind, arg, side):
+    """bytes, ("z", n) = n octets 'Z', or a list of those"""
+    if big_w(kind, arg):
+        if kind in ("HDR", "TRL"):
+            name, _, wire = header_of(kind, arg, side)
+            return [("%s: " % WIRE_NAME[name]).encode(), wire, b"\r\n"]
+        head = ("%x;x=" % (arg % 100 if kind == "CSZ" else 0)).encode()
+        return [head, ("z", big_len(kind, arg, side) - len(head) - 2), b"\r\n"]
     if kind == "REQ":
         return ("%s /m%d HTTP/1.1\r\nHost: x\r\n" % ("GET" if arg % 10 == 1 else "POST", arg // 10)).encode()
     if kind == "RESP":
@@ -99,17 +141,20 @@ def render(case):
     hdrs, datas = {}, {}
     for kind, arg in case["lex"]:
         img = image(kind, arg, case["side"])
-        if isinstance(img, tuple):
-            parts.append("z%d" % img[1])
-            total += img[1]
-        elif img:
-            parts.append("h" + img.hex())
-            total += len(img)
+        for piece in (img if isinstance(img, list) else [img]):
+            if isinstance(piece, tuple):
+                parts.append("z%d" % piece[1])
+                total += piece[1]
+            elif piece:
+                parts.append("h" + piece.hex())
+                total += len(piece)
+        if big_w(kind, arg) and total - (bounds[-1] if bounds else 0) != big_len(kind, arg, case["side"]):
+            raise vf.Infra("image of the big lexeme %s %d has not the length its weight says" % (kind, arg))
         if kind == "EOF":
             eof = True
         if kind in ("CL", "CLL", "CLX", "CLBIG", "TE", "CONN", "HDR", "TRL"):
-            name, val, _ = header_of(kind, arg)
-            hdrs[(kind, arg)] = "%s:%d:%s:%s" % (kind, arg, name, val.encode().hex())
+            name, val, _ = header_of(kind, arg, case["side"])
+            hdrs[(kind, arg)] = "%s:%d:%s:%s" % (kind, arg, name, "z%d" % val[1] if isinstance(val, tuple) else val.encode().hex())
         if kind == "DATA":
             if len(DATA[arg]) != {1: 1, 2: 2, 3: 7}[arg]:
                 raise vf.Infra("DATA image length differs from DLen in HttpAbs.tla")
@@ -122,7 +167,7 @@ def render(case):
 def case_line(case, mode, cutspec, wait_ms):
     parts, total, bounds, eof, htab, dtab = render(case)
     return "%s %s %s %d %s %d | %s | %s | %d | %s | %s | %s" % (
-        case["side"], case["rm"], mode, case["wantMsgs"], case["wantEnd"], wait_ms,
+        case["side"], case["rm"], mode, case["wantMsgs"], "reject" if case["wantEnd"] == "over" else case["wantEnd"], wait_ms,
         json.dumps(case["lex"], separators=(",", ":")), ",".join(parts), 1 if eof else 0, htab, dtab, cutspec)
 
 
@@ -132,7 +177,7 @@ def kinds(case):
 
 def nontrivial(case):
     ks = kinds(case)
-    return bool(ks & {"CSZ", "CSX", "LAST", "CLX", "CLL", "CLBIG", "FLOOD", "JUNK", "CENDX", "EOF"}) or \
+    return bool(ks & {"CSZ", "CSX", "LAST", "CLX", "CLL", "CLBIG", "FLOOD", "JUNK", "CENDX", "EOF"}) or is_big(case) or \
         sum(1 for k, _ in case["lex"] if k in ("REQ", "RESP")) > 1 or \
         sum(1 for k, _ in case["lex"] if k in ("CL", "TE")) > 1
 
@@ -180,14 +225,16 @@ def model_check(ck, side, thorough, devs=(), max_cuts=None, coverage=True, max_p
     cfg = os.path.join(d, name + ".cfg")
     vf.write_cfg(cfg, constants=consts(side, thorough and not devs, max_cuts, devs, max_pipe), invariants=INVS)
     return vf.run_tlc(os.path.join(SPECDIR, "HttpFraming.tla"), cfg, tag="C15_%s_%s" % (side, name),
-                      workers=2 if devs else 6, coverage=coverage and not devs, lib_dirs=[SPECDIR], timeout=1500)
+                      workers=2 if devs else 4, coverage=coverage and not devs, lib_dirs=[SPECDIR], timeout=1500)
 
 
 # ------------------------------------------------------------------------------------------------ the run
 def cutspec_for(case, total, bounds, thorough, rng):
-    if "FLOOD" in kinds(case):
-        # the image is larger than the cap: cut at the lexeme boundaries and once inside the flood
+    if "FLOOD" in kinds(case) or is_big(case):
+        # the image is larger than / comparable with the cap: cut at the lexeme boundaries and once inside the flood /
+        # in the middle of every big lexeme
         inside = [b - 7 for (k, _), b in zip(case["lex"], bounds) if k == "FLOOD"]
+        inside += [(a + b) // 2 for (k, x), a, b in zip(case["lex"], [0] + bounds[:-1], bounds) if big_w(k, x)]
         sets = [""] + [str(b) for b in bounds[:-1]] + [str(x) for x in inside] + [",".join(str(b) for b in bounds[:-1])]
         return "L:" + ";".join(sets)
     if case["side"] == "resp":
@@ -205,17 +252,29 @@ def build_cases(ck, cases, thorough):
     for i, c in enumerate(cases):
         _, total, bounds, _, _, _ = render(c)
         flood = "FLOOD" in kinds(c)
+        big = is_big(c)
+        # big messages: no cut, a cut after the header section, a cut inside every big lexeme, all lexeme boundaries
+        eoh = [b for (k, _), b in zip(c["lex"], bounds) if k == "EOH"]
+        bigcuts = ";".join(["", str(eoh[0]) if eoh else "1"] +
+                           [str((a + b) // 2) for (k, x), a, b in zip(c["lex"], [0] + bounds[:-1], bounds) if big_w(k, x)] +
+                           [",".join(str(b) for b in bounds[:-1])])
         if c["side"] == "req":
             jobs.append((c, "direct", case_line(c, "direct", cutspec_for(c, total, bounds, thorough, ck.rng), wait)))
-            if (not flood or i % 2 == 0) and (thorough or ck.rng.random() < 0.25):
+            if big:
+                jobs.append((c, "sock", case_line(c, "sock", "L:" + bigcuts, wait)))
+            elif (not flood or i % 2 == 0) and (thorough or ck.rng.random() < 0.25):
                 cuts = ";".join([""] + [str(ck.rng.randrange(1, max(2, total))) for _ in range(3 if thorough else 2)]) if not flood \
                     else ";" + str(bounds[0])
                 jobs.append((c, "sock", case_line(c, "sock", "L:" + cuts, wait)))
         else:
-            if not flood:
+            # (flood / big streams are measured against the cap of the e2e client; the direct mode carries its own copy of
+            # the receive loop with the default cap around the real frameResponse)
+            if not flood and not big:
                 jobs.append((c, "direct", case_line(c, "direct", cutspec_for(c, total, bounds, thorough, ck.rng), wait)))
             decided = c["wantMsgs"] >= 1 or c["wantEnd"] == "reject" or "EOF" in kinds(c)
-            if decided and (flood or thorough or ck.rng.random() < 0.3):
+            if big:
+                jobs.append((c, "e2e", case_line(c, "e2e", "L:" + bigcuts, 6000)))
+            elif decided and (flood or thorough or ck.rng.random() < 0.3):
                 cuts = ";".join([""] + [str(ck.rng.randrange(1, max(2, total))) for _ in range(2)]) if not flood \
                     else ";" + str(bounds[-2] if len(bounds) > 1 else 1)
                 jobs.append((c, "e2e", case_line(c, "e2e", "L:" + cuts, 6000)))
@@ -245,7 +304,7 @@ def mutate(rng, data):
 
 def fuzz_jobs(ck, cases, n):
     jobs = []
-    pool = [c for c in cases if "FLOOD" not in kinds(c)]
+    pool = [c for c in cases if "FLOOD" not in kinds(c) and not is_big(c)]
     for i in range(n):
         c = ck.rng.choice(pool)
         parts, total, bounds, eof, htab, dtab = render(c)
@@ -415,7 +474,10 @@ def explain(case, ev):
         return "a framing call did not return (loops forever)"
     if ev.get("threw"):
         return "an exception escaped the data callback"
-    if case["wantEnd"] == "reject" and not ev.get("err"):
+    if is_big(case) and case["wantEnd"] == "reject" and len(ev.get("msgs", [])) > case["wantMsgs"]:
+        return "a message assembled from more buffered input than the configured cap allows was handed over (octets that " \
+               "never become payload - header / chunk extension / trailer - escape the cap)"
+    if case["wantEnd"] in ("reject", "over") and not ev.get("err"):
         return "invalid length information / over-the-cap stream was not rejected"
     if case["wantEnd"] == "reject" and len(ev.get("msgs", [])) > case["wantMsgs"]:
         return "a message with invalid length information was handed to the application"
@@ -465,7 +527,8 @@ def run(ck):
     thorough = ck.tier == "thorough"
     ck.nontrivial_keys = set()
     ck.rule = ("streams = initial states of spec/http/HttpFraming.tla (every body-length form, invalid length class, cap "
-               "overflow, interim heads, surplus, truncation + close, request pipelines), rendered with a fixed lexeme->bytes "
+               "overflow, interim heads, surplus, truncation + close, request pipelines, one-octet payloads under a header "
+               "field / chunk extension / trailer of 3/4 or 5/4 of the cap), rendered with a fixed lexeme->bytes "
                "table; each stream runs on the real framers under no cut, every single byte cut, every byte alone and (small "
                "streams) every pair of cuts; evaluations = (stream, segmentation) runs; a stream is non-trivial when it is "
                "chunked, invalid, over a cap, truncated, pipelined or preceded by interim heads; plus seeded byte mutations")
@@ -480,7 +543,7 @@ def run(ck):
                    "resp": ex.submit(model_check, ck, "resp", True, (), 3)}
         else:
             fmc = {s: ex.submit(model_check, ck, s, False) for s in ("req", "resp")}
-        fdev = {d: ex.submit(model_check, ck, "req", False, (d,), 1) for d in DEVS}
+        fdev = {d: ex.submit(model_check, ck, DEV_SIDE.get(d, "req"), False, (d,), 1) for d in DEVS}
         fb.result()
         cases = {s: f.result() for s, f in fexp.items()}
         mcs = {s: f.result() for s, f in fmc.items()}
@@ -500,6 +563,10 @@ def run(ck):
         if ck.cov.get(a, 0) == 0:
             raise vf.Infra("self-test: Impl action %s never taken" % a)
     expect = {"Dev_ChunkPosWraps": "Terminates"}
+    for s in ("req", "resp"):
+        for cls, want in (("within the caps", ("msg",)), ("over a cap", ("reject", "over"))):
+            if not any(is_big(c) and c["wantEnd"] in want for c in cases[s]):
+                raise vf.Infra("generator produced no %s message %s that is dominated by non-payload octets" % (s, cls))
     for d, r in devs.items():
         ck.states += r.distinct
         ck.transitions += r.generated
@@ -531,7 +598,9 @@ def run(ck):
     if getattr(ck, "more_violations", 0):
         ck.note("%d further confirmed rejections not listed individually" % ck.more_violations)
     for c in (all_cases[0], [c for c in all_cases if "CSX" in kinds(c)][0], [c for c in all_cases if "TRL" in kinds(c)][-1],
-              [c for c in cases["resp"] if c["lex"][0] == ["RESP", 100]][0]):
+              [c for c in cases["resp"] if c["lex"][0] == ["RESP", 100]][0],
+              [c for c in cases["resp"] if is_big(c) and c["wantEnd"] == "reject"][-1],
+              [c for c in cases["req"] if is_big(c) and c["wantEnd"] == "over"][0]):
         parts, total, bounds, eof, _, _ = render(c)
         ck.sample({"lexemes": c["lex"], "bytes": total, "expected_end": c["wantEnd"], "expected_messages": c["wantMsgs"],
                    "segmentations": cutspec_for(c, total, bounds, thorough, ck.rng)})
